@@ -24,6 +24,8 @@ import (
 	"strings"
 	"testing"
 
+	"github.com/gobwas/glob"
+
 	"github.com/sourcegraph/zoekt"
 	"github.com/sourcegraph/zoekt/ignore"
 	"github.com/sourcegraph/zoekt/index"
@@ -96,7 +98,10 @@ func vfC14Code(err error) int {
 
 func vfC14CatfilePart(r *vfRand, n int) {
 	for i := 0; i < n; i++ {
-		nresp := r.Intn(6)
+		nresp := 1 + r.Intn(5)
+		if r.Chance(8) {
+			nresp = 0
+		}
 		var resps []vfC14Resp
 		var stream []byte
 		for j := 0; j < nresp; j++ {
@@ -162,7 +167,7 @@ func vfC14CatfilePart(r *vfRand, n int) {
 				fails["cat:eof-before-all-content"] = true
 			}
 		}
-		nops := r.Intn(4 * (nresp + 2))
+		nops := 3 + r.Intn(4*(nresp+2))
 		for k := 0; k < nops; k++ {
 			if r.Chance(30) {
 				checkEntry()
@@ -363,9 +368,9 @@ func vfC14GenEntry(r *vfRand, path string, sizeMax int) vfC14Entry {
 	switch c := r.Intn(100); {
 	case c < 68:
 		return vfC14Entry{Path: path, Mode: "100644", Content: vfC14GenBlob(r, sizeMax)}
-	case c < 80:
+	case c < 78:
 		return vfC14Entry{Path: path, Mode: "100755", Content: vfC14GenBlob(r, sizeMax)}
-	case c < 92:
+	case c < 88:
 		return vfC14Entry{Path: path, Mode: "120000", Content: []byte(r.Pick([]string{"main.go", "../README.md", "/etc/hostname", "shared content one\n", "x"}))}
 	}
 	return vfC14Entry{Path: path, Mode: "160000"}
@@ -447,6 +452,27 @@ func vfC14CoqDocs(ds []vfC14Doc) string {
 		xs[i] = cTuple(cStr(d.Name), bs, cBytes(d.Content))
 	}
 	return cList(xs)
+}
+
+// vfC14IgnorePatterns: the documented reading of an ignore file, written independently of ignore.ParseIgnoreFile.
+func vfC14IgnorePatterns(content string) []string {
+	lines := strings.Split(content, "\n")
+	if len(lines) > 0 && lines[len(lines)-1] == "" {
+		lines = lines[:len(lines)-1]
+	}
+	var out []string
+	for _, l := range lines {
+		l = strings.Trim(l, " \t\r\n\v\f")
+		if l == "" || l[0] == '#' {
+			continue
+		}
+		l = strings.TrimPrefix(l, "/")
+		if !strings.ContainsAny(l, ".][*?") {
+			l += "**"
+		}
+		out = append(out, l)
+	}
+	return out
 }
 
 func vfC14GitPart(t *testing.T, r *vfRand, n int, tmp string) {
@@ -658,6 +684,8 @@ func vfC14GitPart(t *testing.T, r *vfRand, n int, tmp string) {
 		contentOf := map[string][]byte{}
 		idOf := map[string]int{}
 		var coqBranches []string
+		var globTab []string
+		globSeen := map[string]bool{}
 		nEntries, nGitlinks, nIgnored := 0, 0, 0
 		type lsEntry struct{ mode, typ, sha, path string }
 		lsOf := map[string][]lsEntry{}
@@ -696,9 +724,22 @@ func vfC14GitPart(t *testing.T, r *vfRand, n int, tmp string) {
 					if err != nil {
 						t.Fatalf("case %d: generator produced an invalid ignore pattern: %v", i, err)
 					}
+					// verdicts of the real glob engine for the harness' own reading of the ignore blob
+					for _, pat := range vfC14IgnorePatterns(string(blobOf[e.sha])) {
+						g, gerr := glob.Compile(pat, '/')
+						if gerr != nil {
+							t.Fatalf("case %d: pattern %q does not compile: %v", i, pat, gerr)
+						}
+						for _, e2 := range ents {
+							if k := pat + "\x00" + e2.path; g.Match(e2.path) && !globSeen[k] {
+								globSeen[k] = true
+								globTab = append(globTab, cPair(cStr(pat), cStr(e2.path)))
+							}
+						}
+					}
 				}
 			}
-			var cents, cign []string
+			var cents []string
 			for _, e := range ents {
 				code := 0
 				switch {
@@ -722,11 +763,8 @@ func vfC14GitPart(t *testing.T, r *vfRand, n int, tmp string) {
 					nEntries++
 				}
 				cents = append(cents, cTuple(cStr(e.path), cN(uint64(code)), cN(uint64(id))))
-				if matcher.Match(e.path) {
-					cign = append(cign, cStr(e.path))
-					if e.typ == "blob" {
-						nIgnored++
-					}
+				if matcher.Match(e.path) && e.typ == "blob" {
+					nIgnored++
 				}
 				if e.typ != "blob" || matcher.Match(e.path) {
 					continue
@@ -737,14 +775,11 @@ func vfC14GitPart(t *testing.T, r *vfRand, n int, tmp string) {
 				}
 				wantBranches[k] = append(wantBranches[k], bn)
 			}
-			ce, ci := "[]", "[]"
+			ce := "[]"
 			if len(cents) > 0 {
 				ce = cList(cents)
 			}
-			if len(cign) > 0 {
-				ci = cList(cign)
-			}
-			coqBranches = append(coqBranches, cTuple(cStr(bn), ce, ci))
+			coqBranches = append(coqBranches, cPair(cStr(bn), ce))
 		}
 		want := map[string]int{}
 		var largePaths []string
@@ -854,7 +889,11 @@ func vfC14GitPart(t *testing.T, r *vfRand, n int, tmp string) {
 		if len(largePaths) > 0 {
 			cl = cList(largePaths)
 		}
-		coq := cTuple(cN(uint64(sizeMax)), cl, cb, cList(coqBranches), vfC14CoqDocs(docsGoGit), vfC14CoqDocs(docsCatfile))
+		ct := "[]"
+		if len(globTab) > 0 {
+			ct = cList(globTab)
+		}
+		coq := cTuple(cN(uint64(sizeMax)), cl, cb, cList(coqBranches), ct, vfC14CoqDocs(docsGoGit), vfC14CoqDocs(docsCatfile))
 		catfileUsed := largeFiles != nil
 		vfCase(coq, "git:"+vfKey(coq), len(branchNames) >= 2 && nEntries >= 3,
 			[]string{fmt.Sprintf("git:branches=%d", len(branchNames)), fmt.Sprintf("git:docs=%d", min(len(docsGoGit)/3*3, 12)),
